@@ -124,6 +124,9 @@ async def one(ec, case, res):
     elif case["data"][0] == "bytes":
         data = bytes.fromhex(case["data"][1])
         raw = data
+        if case["respseed"] % 3 == 0:
+            # the caller hands over a buffer it goes on using
+            data = bytearray(data)
     else:
         data = case["data"][1]
         raw = bytes(data)
@@ -148,6 +151,10 @@ async def one(ec, case, res):
         return
     cmd, payload, idx, pos, off, future = got
     res.count("queued")
+    if isinstance(data, bytearray) and len(data):
+        # the request is queued: the caller's buffer is its own again
+        data[:] = bytes(b ^ 0xff for b in data)
+        res.count("caller_buffers_overwritten_after_queueing")
     if (cmd, idx, pos, off) != (ECCmd(case["cmd"]), case["idx"],
                                 case["pos"], case["off"]):
         res.violation("unexplained:queued-header",
